@@ -7,8 +7,8 @@ Property theorems only (helper lemmas live in `Lemmas/Console`, `Lemmas/Html`, `
 
 The model (`Model/Console.lean`) is parameterised by the code variant.  The theorems are proved for the
 *repaired* behaviour (`recordInRender = false`: the record is appended to where the file is written,
-`mergeCtl = false`: today's `Segment.simplify`, and for the HTML text either `escapeHref = true` or links free
-of `>`); the `old_…` witnesses show, by evaluation, that the code as it stands violates the statement.
+`mergeCtl = false`: today's `Segment.simplify`, for the HTML text either `escapeHref = true` or links free of `>`,
+and for nested capture blocks `captureMarks = true`); the `old_…` / `nested_capture_steals` witnesses show, by evaluation, that the code as it stands violates the statement.
 
 Vocabulary: `exec v cfg env ops s` is the state after the history `ops`; `s.file` is the list of strings
 written to the file, each kept as the pieces it is made of; `fileVisible` is the text of the non-control
@@ -168,27 +168,25 @@ theorem export_styled_eq_file_from_start (v : Variant) (cfg : Config) (env : Sty
 
 /-! ## capture -/
 
-/-- **capture withholds.**  While the capture depth is at least one, no operation whatsoever — print, control
-codes, exports, nested begin/end — writes to the file. -/
+/-- **capture withholds.**  While the capture depth is and stays at least one, no operation whatsoever — print,
+control codes, exports, nested begin/end — writes to the file.  (The `end_capture` that brings the depth back to
+zero is covered by `capture_returns_and_withholds`.) -/
 theorem capture_withholds (v : Variant) (cfg : Config) (env : StyleEnv σ) (s : State σ) (op : Op σ)
-    (hi : 1 ≤ s.index) : (step v cfg env s op).1.file = s.file := by
+    (hi : 1 ≤ s.index) (hi' : 1 ≤ (step v cfg env s op).1.index) : (step v cfg env s op).1.file = s.file := by
   by_cases hop : isCapture op = true
   · cases op <;> simp [isCapture] at hop
     · rfl
-    · simp only [step]
-      by_cases h1 : s.index - 1 = 0
-      · have := checkBuffer_outside v cfg env
-          { s with buffer := [], record := (renderBuffer v cfg env s.buffer s.record).2, index := s.index - 1 } h1
-        rw [this.2.2]
-        simp [written_cons]
-      · rw [checkBuffer_inside _ _ _ _ h1]
+    · simp only [step, checkBuffer_index] at hi'
+      simp only [step]
+      rw [checkBuffer_inside _ _ _ _ (by simp only; omega)]
   · exact (step_inside v cfg env s op (by omega) (by simpa using hop)).2.2
 
-/-- **capture_returns_and_withholds.**  Start outside any capture with an empty buffer (`s`).  Let `inner` be any
-operations other than begin/end capture.  Run them inside a capture block: what `end_capture` returns is,
-character for character, the concatenation of what the same operations write to the file when run outside a
-capture (`W`); meanwhile the file is unchanged, and afterwards the console is again outside any capture with an
-empty buffer.  In the repaired variant nothing of it is recorded (when `inner` has no exports). -/
+/-- **capture_returns_and_withholds.**  Start outside any capture with an empty buffer (`s`; every reachable
+outside-capture state is like that, `reachable_outside_empty`).  Let `inner` be any operations other than
+begin/end capture.  Run them inside a capture block: what `end_capture` returns is, character for character, the
+concatenation of what the same operations write to the file when run outside a capture (`W`); meanwhile the file
+is unchanged, and afterwards the console is again outside any capture with an empty buffer.  Holds for every
+variant of the code. -/
 theorem capture_returns_and_withholds (v : Variant) (cfg : Config) (env : StyleEnv σ) (s : State σ)
     (inner : List (Op σ)) (hi : s.index = 0) (hb : s.buffer = [])
     (hinner : inner.all (fun op => !isCapture op) = true) :
@@ -199,22 +197,73 @@ theorem capture_returns_and_withholds (v : Variant) (cfg : Config) (env : StyleE
       (step v cfg env (exec v cfg env (.beginCapture :: inner) s) .endCapture).1.index = 0 ∧
       (step v cfg env (exec v cfg env (.beginCapture :: inner) s) .endCapture).1.buffer = [] := by
   obtain ⟨_, _, hf⟩ := exec_outside v cfg env inner s hi hb hinner
-  have hin := exec_inside v cfg env inner { s with index := s.index + 1 } (by simp [hi]) hinner
-  obtain ⟨hb2, hx2, hf2⟩ := hin
-  have hbegin : exec v cfg env (.beginCapture :: inner) s = exec v cfg env inner { s with index := s.index + 1 } := rfl
+  let s1 : State σ := { s with index := s.index + 1,
+                               marks := if v.captureMarks then s.buffer.length :: s.marks else s.marks }
+  have hbegin : exec v cfg env (.beginCapture :: inner) s = exec v cfg env inner s1 := rfl
+  obtain ⟨hb2, hx2, hf2⟩ := exec_inside v cfg env inner s1 (by simp [s1, hi]) hinner
+  have hmk := exec_marks v cfg env inner s1 hinner
+  have hstart : (if v.captureMarks = true then (exec v cfg env inner s1).marks.headD 0 else 0) = 0 := by
+    rw [hmk]; cases hcm : v.captureMarks <;> simp [s1, hcm, hb]
+  have hx3 : (exec v cfg env inner s1).index - 1 = 0 := by rw [hx2]; simp [s1, hi]
   refine ⟨written cfg env (inner.map (appended cfg)), hf, ?_, ?_, ?_, ?_, ?_⟩
   · rw [hbegin]
-    simp only [step, renderBuffer]
+    simp only [step, renderBuffer, hstart, List.drop_zero]
     rw [hb2, flat_written]
-    simp [hb, List.flatMap_def]
+    simp [s1, hb, List.flatMap_def]
   · rw [hbegin, hf2]
-  · have h1 : 1 ≤ (exec v cfg env (.beginCapture :: inner) s).index := by rw [hbegin, hx2]; simp [hi]
-    rw [capture_withholds v cfg env _ .endCapture h1, hbegin, hf2]
-  · simp only [step, checkBuffer_index]
-    rw [hbegin, hx2]; simp [hi]
-  · simp only [step]
-    have h0 : (exec v cfg env (.beginCapture :: inner) s).index - 1 = 0 := by rw [hbegin, hx2]; simp [hi]
-    exact (checkBuffer_outside v cfg env _ h0).1
+  · rw [hbegin]
+    simp only [step, hstart, List.take_zero]
+    rw [(checkBuffer_outside v cfg env _ hx3).2.2]
+    simp [written_cons, hf2, s1]
+  · rw [hbegin]
+    simp only [step, checkBuffer_index]
+    exact hx3
+  · rw [hbegin]
+    simp only [step]
+    exact (checkBuffer_outside v cfg env _ hx3).1
+
+/-- **Nested blocks (repaired `captureMarks` variant).**  A capture block opened at *any* depth, in *any* state,
+returns exactly the rendering of what the operations directly inside it appended — the same string they would
+write outside a capture — and, when it sits inside another block, leaves the enclosing block's pending buffer,
+its marks, the depth and the file exactly as they were.  So blocks compose: an inner block is invisible to the
+enclosing one.  (Today's code: `nested_capture_steals`.) -/
+theorem capture_block_transparent (v : Variant) (cfg : Config) (env : StyleEnv σ) (s : State σ)
+    (inner : List (Op σ)) (hm : v.captureMarks = true) (hi : 0 ≤ s.index)
+    (hinner : inner.all (fun op => !isCapture op) = true) :
+    (step v cfg env (exec v cfg env (.beginCapture :: inner) s) .endCapture).2 =
+        .captured (flat (renderPieces cfg env (inner.flatMap (appended cfg)))) ∧
+      flat (renderPieces cfg env (inner.flatMap (appended cfg))) =
+        flat (written cfg env (inner.map (appended cfg))).flatten ∧
+      (step v cfg env (exec v cfg env (.beginCapture :: inner) s) .endCapture).1.marks = s.marks ∧
+      (step v cfg env (exec v cfg env (.beginCapture :: inner) s) .endCapture).1.index = s.index ∧
+      (1 ≤ s.index →
+        (step v cfg env (exec v cfg env (.beginCapture :: inner) s) .endCapture).1.buffer = s.buffer ∧
+        (step v cfg env (exec v cfg env (.beginCapture :: inner) s) .endCapture).1.file = s.file) := by
+  let s1 : State σ := { s with index := s.index + 1, marks := s.buffer.length :: s.marks }
+  have hbegin : exec v cfg env (.beginCapture :: inner) s = exec v cfg env inner s1 := by
+    show exec v cfg env inner (step v cfg env s .beginCapture).1 = _
+    simp [step, hm, s1]
+  obtain ⟨hb2, hx2, hf2⟩ := exec_inside v cfg env inner s1 (by simp only [s1]; omega) hinner
+  have hmk := exec_marks v cfg env inner s1 hinner
+  have hx3 : (exec v cfg env inner s1).index - 1 = s.index := by rw [hx2]; simp [s1]
+  refine ⟨?_, ?_, ?_, ?_, ?_⟩
+  · rw [hbegin]
+    simp only [step, renderBuffer, hm, if_true, hmk, s1, List.headD_cons]
+    rw [hb2]
+    simp [s1, List.flatMap_def]
+  · rw [flat_written]; simp [List.flatMap_def]
+  · rw [hbegin]
+    simp only [step, checkBuffer_marks, hm, if_true, hmk, s1, List.tail_cons]
+  · rw [hbegin]
+    simp only [step, checkBuffer_index]
+    exact hx3
+  · intro h1
+    rw [hbegin]
+    simp only [step]
+    rw [checkBuffer_inside _ _ _ _ (by simp only; rw [hx3]; omega)]
+    simp only [hm, if_true, hmk, s1, List.headD_cons]
+    rw [hb2]
+    exact ⟨by simp [s1], hf2⟩
 
 /-- The starting condition of `capture_returns_and_withholds` holds in every state reached from a fresh console by a
 history whose capture blocks are well nested: the depth is never negative, and at depth zero the buffer is empty. -/
@@ -230,20 +279,25 @@ theorem reachable_outside_empty (v : Variant) (cfg : Config) (env : StyleEnv σ)
 (for `inner` without exports). -/
 theorem capture_not_recorded (v : Variant) (cfg : Config) (env : StyleEnv σ) (s : State σ)
     (inner : List (Op σ)) (hv : v.recordInRender = false) (hr : cfg.record = true) (hi : s.index = 0)
-    (hinner : inner.all (fun op => !isCapture op) = true)
+    (hb : s.buffer = []) (hinner : inner.all (fun op => !isCapture op) = true)
     (hnoexp : inner.all (fun op => !isClearing op) = true) :
     (exec v cfg env (.beginCapture :: inner ++ [.endCapture]) s).record = s.record := by
+  let s1 : State σ := { s with index := s.index + 1,
+                               marks := if v.captureMarks then s.buffer.length :: s.marks else s.marks }
   have hbegin : exec v cfg env (.beginCapture :: inner ++ [.endCapture]) s =
-      (step v cfg env (exec v cfg env inner { s with index := s.index + 1 }) .endCapture).1 := by
-    show exec v cfg env (inner ++ [.endCapture]) { s with index := s.index + 1 } = _
+      (step v cfg env (exec v cfg env inner s1) .endCapture).1 := by
+    show exec v cfg env (inner ++ [.endCapture]) s1 = _
     rw [exec_append]; rfl
-  obtain ⟨_, hx2, _⟩ := exec_inside v cfg env inner { s with index := s.index + 1 } (by simp [hi]) hinner
-  have hrec : (exec v cfg env inner { s with index := s.index + 1 }).record = s.record :=
-    exec_inside_record v cfg env inner _ (by simp [hi]) hinner hnoexp
+  obtain ⟨_, hx2, _⟩ := exec_inside v cfg env inner s1 (by simp [s1, hi]) hinner
+  have hrec : (exec v cfg env inner s1).record = s.record :=
+    exec_inside_record v cfg env inner _ (by simp [s1, hi]) hinner hnoexp
+  have hmk := exec_marks v cfg env inner s1 hinner
+  have hstart : (if v.captureMarks = true then (exec v cfg env inner s1).marks.headD 0 else 0) = 0 := by
+    rw [hmk]; cases hcm : v.captureMarks <;> simp [s1, hcm, hb]
+  have h0 : ((exec v cfg env inner s1).index - 1 == 0) = true := by
+    rw [hx2]; simp [s1, hi]
   rw [hbegin]
-  simp only [step, renderBuffer, hv, Bool.false_and, Bool.false_eq_true, if_false]
-  have h0 : ((exec v cfg env inner { s with index := s.index + 1 }).index - 1 == 0) = true := by
-    rw [hx2]; simp [hi]
+  simp only [step, renderBuffer, hv, Bool.false_and, Bool.false_eq_true, if_false, hstart, List.take_zero]
   unfold checkBuffer
   simp [h0, renderBuffer, hv, hr, hrec]
 
@@ -273,13 +327,18 @@ example :
     let s := exec Variant.repaired wCfg wEnv [.beginCapture, .print [{ text := ['x'], style := none }], .endCapture] {}
     exportPlain s.record = [] ∧ fileVisible s.file = [] := by decide
 
-/-- Nested capture blocks (both variants): the inner `end_capture` returns what was printed in the *outer* block
+/-- Nested capture blocks (`captureMarks = false`, with or without the other repairs): the inner `end_capture` returns what was printed in the *outer* block
 before the inner one began, and the outer capture returns nothing — `capture_returns_and_withholds` cannot be
 extended to nested blocks on this code. -/
-theorem nested_capture_steals (v : Variant) (hv : v = Variant.today ∨ v = Variant.repaired) :
+theorem nested_capture_steals (v : Variant) (hv : v = Variant.today ∨ v = { Variant.repaired with captureMarks := false }) :
     (run v wCfg wEnv [.beginCapture, .print [{ text := ['x'], style := none }], .beginCapture, .endCapture, .endCapture] {}).2
       = [.none, .none, .none, .captured ['x'], .captured []] := by
   rcases hv with rfl | rfl <;> decide
+
+/-- The same history with `captureMarks = true`: each block returns what was printed directly inside it. -/
+example :
+    (run Variant.repaired wCfg wEnv [.beginCapture, .print [{ text := ['x'], style := none }], .beginCapture, .endCapture, .endCapture] {}).2
+      = [.none, .none, .none, .captured [], .captured ['x']] := by decide
 
 /-- Today's `href` (`escapeHref = false`): a link containing `">` ends the tag early, and its tail shows up as text. -/
 theorem old_href_breaks_html :
